@@ -109,9 +109,14 @@ def scenario(tier):
     return fn
 
 
-def harnesses(tier):
+def _harnesses(tier):
     return [Harness("c08-nested", scenario(tier), frontier=6, budget_s=2400,
                     what="U2 with any subset (<=3 quick / all thorough) of 6 candidate nested roots (siblings, chain to depth 4, prefix pair A/AB) "
                          "incl. two nested roots with the same folder name (A/AA, B/AA), created deep-first or shallow-first; then create in folder mode, folder -n, or -sf on any file",
                     bounds={"candidate roots": CANDS, "files": sorted(FILES), "formats": "md5 | xxh64+c4"},
                     outside=["order of <hashlistreference> elements (C13)", "overlapping -sf selections", "ignored nested roots"])]
+
+
+def harnesses(tier):
+    from . import tour
+    return list(_harnesses(tier)) + tour.harnesses(tier, "C08")
